@@ -635,6 +635,14 @@ def check_c18(tier, seed):
         parts = [(t, rng.choice([None, None, 1000, 900, 800, 500, 550, 300, 100, 1, 0])) for t in ts]
         neg_call(parts, rng.randrange(16), served=(k % 10 == 0))
     neg_call([], 0, served=True)
+    # no Accept header at all (GET and POST), and handle_header(None): the default applies
+    got = handle_header(None)
+    calls.add({"f": "negotiate", "parts": [], "via": "handle_header", "got": got}, {"f": "negotiate", "header": None, "got": got, "via": "handle_header"})
+    for how in ("get", "post"):
+        r = app0.get("/sparql", query_string={"query": ping}) if how == "get" else app0.post("/sparql", data={"query": ping})
+        ct = (r.headers.get("Content-Type") or "").split(";")[0].strip() if r.status_code == 200 else f"status {r.status_code}"
+        calls.add({"f": "negotiate", "parts": [], "via": "flask", "got": ct},
+                  {"f": "negotiate", "header": None, "got": ct, "via": "flask-" + how + "-without-accept-header", "status": r.status_code})
     # --- answers
     pred_ok = "http://www.w3.org/2002/07/owl#sameAs"
     pred_other = "http://www.w3.org/2004/02/skos/core#exactMatch"
